@@ -292,6 +292,31 @@ def accept(c0: int, c1: int, c2: int, c3: int, i: int, j: int, ni: bool, nj: boo
     return _res(out == doc)
 
 
+# ---- (5b) statements whose variable names use everything the statement grammar allows compile ------------
+VALID_NAME_DOCS = [
+    '<a tal:define="foo-bar 1">t</a>', '<a tal:repeat="a-b (1, 2)">t</a>', '<a tal:define="global g-h 1">t</a>',
+    '<a tal:define="(a-b, c) (1, 2)">t</a>', '<a tal:define="x_1 1; _y 2; Z9 3">t</a>',
+    '<a tal:define="a-b 1"><b tal:define="a-b 2">t</b></a>', '<a tal:repeat="(k-1, v) ((1, 2),)">t</a>',
+]
+
+
+def valid_names(k: int, p: int) -> bool:
+    """
+    pre: 0 <= k < len(VALID_NAME_DOCS) and 0 <= p < 6
+    post: _
+    """
+    from chameleon import PageTemplate
+    from vlib.notrace import NoTracing
+    text = pickv(PADS, p) + pickv(VALID_NAME_DOCS, k)
+    with NoTracing():
+        try:
+            out = PageTemplate(text).render()
+            ok = out.count('t') >= 1 and 'tal:' not in out
+        except Exception:
+            ok = False
+    return _res(ok)
+
+
 # ---- (6) compile histories: locations do not depend on what was compiled before -------------------------
 # A clause with an error is compiled at several offsets (and lines), one compilation after the other in one
 # process; every raised TemplateError must locate its token in the source of *that* compilation.
@@ -323,6 +348,9 @@ ERR_CLAUSES = [
     ('data-unknown-statement', '<div data-tal-contnt="a">k</div>'),
     ('data-bad-define', '<div data-tal-define="x">k</div>'),
     ('unknown-statement-renamed-prefix', '<div xmlns:t="http://xml.zope.org/namespaces/tal" t:contnt="a">k</div>'),
+    # a code block that is not valid Python
+    ('code-block-syntax', '<div>a</div>\n<?python 1 + ?>'),
+    ('code-block-syntax-later-line', '<div>\n<?python\nx = 1\ny = (\n?>a</div>'),
     # an error in a part *before* an entity (entities only move the parts after them: known finding)
     ('error-before-entity-define', '<div tal:define="x 1 +; h string:?a=1&amp;b=2">a</div>'),
     ('error-before-entity-attributes', '<div tal:attributes="title 1 +; href string:?a=1&amp;b=2">a</div>'),
